@@ -340,8 +340,7 @@ def check_todelta(cx, kind, xsd, v, obj):
     cx.cmp()
     got = td_us(r[1])
     if got != exp:
-        aware = 'tz' if v[7] is not None else 'notz'
-        cx.out.fail('C11/todelta/%s/%s' % (yclass(v[0]), aware),
+        cx.out.fail('C11/todelta/%s' % yclass(v[0]),
                     {'value': shown(kind, v, xsd), 'xsd': xsd, 'expected_us': exp, 'got_us': got,
                      'off_by_days': (got - exp) / cal.DAY_US})
         return False
@@ -462,7 +461,7 @@ def attribute_daytime(cx, kind, xsd, a, exp, dus=None):
     if ra[0] == 'ok':
         r = call(ra[1].todelta)
         if r[0] == 'ok' and td_us(r[1]) != expected_delta_us(a):
-            return 'C11/todelta/%s/%s' % (yclass(a[0]), 'tz' if a[7] is not None else 'notz')
+            return 'C11/todelta/%s' % yclass(a[0])
     # the engine computes fromdelta(UTC delta + offset): probe fromdelta at the expected local reading
     # (dates: the engine drops the time afterwards, so probe the dateTime class at midnight and at noon)
     base = cal.local_us(exp)
@@ -548,7 +547,7 @@ def cmp_key(kind, a, b, exp, got_map, xsd='1.0'):
     yf = year_field_cmp(a, b)
     if yf is not None and kind != 'time' and all(got_map.get(o) == yf[o] for o in got_map) and yf != exp:
         return 'C11/compare/year-field-ordered-before-instant'
-    return 'C11/compare/%s/%s/tz-%s' % (kind, era(a[0], b[0]) if kind != 'time' else 'time', tzrel(a, b))
+    return 'C11/compare/tz-%s/%s' % (tzrel(a, b), era(a[0], b[0]) if kind != 'time' else 'time')
 
 
 PY_OPS = {'eq': lambda x, y: x == y, 'ne': lambda x, y: x != y, 'lt': lambda x, y: x < y,
@@ -648,7 +647,7 @@ def run_arith(case, cx):
                     for v, o in ((a, ao), (b, bo)):
                         rt = call(o.todelta)
                         if rt[0] == 'ok' and td_us(rt[1]) != expected_delta_us(v) and not in_core(a, b):
-                            key = 'C11/todelta/%s/%s' % (yclass(v[0]), 'tz' if v[7] is not None else 'notz')
+                            key = 'C11/todelta/%s' % yclass(v[0])
                             break
                 out.fail(key or 'C11/subtract/%s/%s/tz-%s' % (kind, era(a[0], b[0]) if kind != 'time' else 'time', rel),
                          dict(det, expected=cal.fmt_daytime(exp_us), got=str(r[1])))
@@ -658,7 +657,7 @@ def run_arith(case, cx):
             # d1 + (d2 - d1) = d2 : the model gives the value in d1's timezone at d2's instant
             exp = model_add_daytime(kind, a, exp_us)
             r2 = call(lambda: ao + r[1])
-            ok = compare_value(cx, r2, kind, xsd, exp, 'C11/add-difference/%s/%s' % (kind, era(a[0], b[0])),
+            ok = compare_value(cx, r2, kind, xsd, exp, 'C11/add-difference/%s' % era(a[0], b[0]),
                                {'op': '%s + (%s - %s)' % (case['a'], case['b'], case['a'])}, core,
                                attribute=lambda: attribute_daytime(cx, kind, xsd, a, exp, exp_us))
             if ok and (kind == 'dateTime' or rel in ('none', 'same')):
@@ -938,7 +937,7 @@ def run_xpath(case, cx):
                     if comp == 'year' and a[0] <= 0:
                         key = 'C11/component/year/bce/xsd%s' % xsd
                     else:
-                        key = 'C11/component/%s/%s/%s' % (comp, kind, ycls)
+                        key = 'C11/component/%s/%s' % (comp, kind)
                     out.fail(key, {'expr': expr, 'expected': exp, 'got': str(got)})
         return
 
@@ -965,7 +964,7 @@ def run_xpath(case, cx):
             key = cmp_key(kind, a, b, exp_map, got_map, xsd)
             if rel == 'mixed' and implicit and got_map == model_cmp(a, b, 0):
                 key = 'C11/compare/implicit-timezone-ignored'
-            elif rel == 'mixed' and not key.endswith('before-instant'):
+            elif rel == 'mixed' and key.startswith('C11/compare/tz-'):
                 key += '/implicit'
             out.fail(key, {'a': case['a'], 'b': case['b'], 'xsd': xsd, 'implicit_tz': tz, 'wrong_ops': bad,
                            'expected': {o: exp_map[o] for o in bad}, 'layer': 'xpath%s' % ver})
@@ -996,9 +995,9 @@ def run_xpath(case, cx):
                     if ro[0] == 'ok':
                         rt = call(ro[1].todelta)
                         if rt[0] == 'ok' and td_us(rt[1]) != expected_delta_us(v):
-                            key = 'C11/todelta/%s/%s' % (yclass(v[0]), 'tz' if v[7] is not None else 'notz')
+                            key = 'C11/todelta/%s' % yclass(v[0])
                             break
-            if rel == 'mixed':
+            if rel == 'mixed' and key.startswith('C11/subtract/'):
                 key += '/implicit'
             out.fail(key, {'expr': expr, 'implicit_tz': tz, 'expected': cal.fmt_daytime(exp_us), 'got': str(r[1])})
             return
@@ -1031,7 +1030,7 @@ def run_xpath(case, cx):
                         k = 'C11/compare/implicit-timezone-ignored'
                     if k is None and year_field_cmp(exp_v, b) is not None:
                         k = 'C11/compare/year-field-ordered-before-instant'
-                    out.fail(k or 'C11/add-difference/%s/%s' % (kind, era(a[0], b[0])),
+                    out.fail(k or 'C11/add-difference/%s' % era(a[0], b[0]),
                              {'expr': expr2, 'expected': exp_eq, 'got': r2[1], 'implicit_tz': tz})
         return
 
@@ -1358,7 +1357,28 @@ def g_duration_any(r, sub):
         return r.choice(YEARMONTH)
     sign = '-' if r.random() < 0.4 else ''
     x = r.random()
-    if x < 0.4:
+    if x < 0.25:
+        # N years against the day counts that N years can span from the four reference dates
+        n = r.choice((1, 1, 2, 3, 4, 4, 5, 8, 100, 200, 300, 400))
+        y = r.random()
+        if y < 0.3:
+            return '%sP%dY' % (sign, n)
+        if y < 0.45:
+            return '%sP%dM' % (sign, 12 * n + r.choice((0, 0, 1, -1)))
+        lo = n * 365 + n // 4 - n // 100 + n // 400
+        return '%sP%dD' % (sign, lo + r.choice((-2, -1, 0, 0, 1, 1, 2)))
+    if x < 0.45:
+        # N months against the shortest / longest span N months take from the four reference dates
+        n = r.choice((1, 2, 3, 4, 5, 6, 7, 8, 9, 10, 11, 13, 14, 17, 18, 23, 24, 25, 30, 36, 48, 49))
+        if r.random() < 0.45:
+            return '%sP%dM' % (sign, n)
+        spans = []
+        for y, mo in ((1696, 9), (1697, 2), (1903, 3), (1903, 7)):
+            spans.append(cal.days_from_civil(*cal.add_months((y, mo, 1, 0, 0, 0, 0, None), n)[:3])
+                         - cal.days_from_civil(y, mo, 1))
+        d = r.choice((min(spans) - 1, min(spans), max(spans), max(spans) + 1, r.choice(spans)))
+        return '%sP%dD%s' % (sign, d, r.choice(('', '', 'T12H', 'T1S')))
+    if x < 0.55:
         # around the month-length ambiguity: N months vs 28..31 * N days
         n = r.choice((1, 1, 2, 3, 12))
         if r.random() < 0.5:
@@ -1367,6 +1387,23 @@ def g_duration_any(r, sub):
     if x < 0.7:
         return '%sP%dY%dM%dDT%dH' % (sign, r.randint(0, 3), r.randint(0, 13), r.randint(0, 40), r.randint(0, 30))
     return sign + r.choice(DAYTIME + YEARMONTH).lstrip('-')
+
+
+def g_duration_pair(r, sub):
+    if sub == 'any' and r.random() < 0.45:
+        # the same N on both sides: N months against day counts at the edge of what N months can span
+        n = r.choice((1, 2, 3, 4, 5, 6, 7, 8, 9, 10, 11, 12, 13, 14, 17, 18, 23, 24, 25, 30, 36, 48, 49, 1200, 4800))
+        spans = []
+        for y, mo in ((1696, 9), (1697, 2), (1903, 3), (1903, 7)):
+            spans.append(cal.days_from_civil(*cal.add_months((y, mo, 1, 0, 0, 0, 0, None), n)[:3])
+                         - cal.days_from_civil(y, mo, 1))
+        d = r.choice((min(spans) - 1, min(spans), max(spans), max(spans) + 1, r.choice(spans)))
+        sign = '-' if r.random() < 0.3 else ''
+        pair = ['%sP%dM' % (sign, n), '%sP%dD%s' % (sign, d, r.choice(('', '', 'T12H', 'T1S')))]
+        if r.random() < 0.5:
+            pair.reverse()
+        return pair
+    return [g_duration_any(r, sub), g_duration_any(r, sub)]
 
 
 XP_OPS = ['literal', 'component', 'component', 'compare', 'compare', 'compare', 'subtract', 'subtract',
@@ -1463,7 +1500,8 @@ def run(h):
     # durations
     for _ in range(h.n(2500)):
         sub = r.choice(('dayTime', 'yearMonth', 'any', 'any'))
-        h.case('duration', {'sub': sub, 'd1': g_duration_any(r, sub), 'd2': g_duration_any(r, sub)})
+        d1, d2 = g_duration_pair(r, sub)
+        h.case('duration', {'sub': sub, 'd1': d1, 'd2': d2})
     # XPath layer
     for _ in range(h.n(26000)):
         h.case('xpath', g_xpath(r))
